@@ -6,23 +6,18 @@ namespace {
 constexpr long long kNs = 1000000000LL;
 struct Oracle { bool present = false; std::uint8_t b0 = 0, b1 = 0; std::size_t len = 0; long long deadline = 0; };
 ChunkId make_id(int which) { ChunkId id{}; for (std::size_t i = 0; i < 32; ++i) id[i] = static_cast<std::uint8_t>(which ? 0xB0 + i : 0x0A + 3 * i); return id; }
-void advance_clock() {
-    const std::uint64_t d = nondet_u64("advance_ns");
-    verif_assume(d <= (1ull << 50));
-    verif_env::g_steady_ns += static_cast<long long>(d);
-}
+using verif_env::advance_clock;
 }
 // k steps over two chunk ids; opcode, arguments and the clock advance before every step are symbolic.
 // The opcode sequence is fixed per job (base-5 digits of `seq`, first step = lowest digit) and the driver fans all sequences
 // out over the cores; everything else (ids, TTLs, payload, clock) stays symbolic.
 extern "C" void h_c01_history(unsigned long k, unsigned long seq) {
     Config cfg{};
-    const std::uint32_t dflt = nondet_u32("default_ttl_s");
-    verif_assume(dflt >= 1 && dflt <= 86400);
+    const std::uint32_t dflt = nondet_u8("default_ttl_s") + 1u;   // default TTL 1..256 s
     cfg.default_chunk_ttl = std::chrono::seconds(dflt);
     ChunkStore store(cfg);
     Oracle o[2];
-    verif_env::g_steady_ns = static_cast<long long>(nondet_u64("t0") & ((1ull << 60) - 1));
+    verif_env::start_clock();
     for (unsigned long step = 0; step < k; ++step) {
         advance_clock();
         const long long now = verif_env::g_steady_ns;
@@ -31,8 +26,8 @@ extern "C" void h_c01_history(unsigned long k, unsigned long seq) {
         const int w = verif_concretize(which, 2) ? 1 : 0;
         const ChunkId id = make_id(w);
         if (op == 0) {
-            const std::int64_t ttl = static_cast<std::int64_t>(nondet_u64("ttl_s"));
-            verif_assume(ttl >= -(1LL << 31) && ttl <= (1LL << 31));
+            // requested TTL in [-8, 247] s; event times on the 1/8 s grid (see stdmodels.h)
+            const std::int64_t ttl = static_cast<std::int64_t>(nondet_u8("ttl_s")) - 8;
             const bool two = nondet_bool("two_bytes");
             ChunkData data;
             const std::uint8_t b0 = nondet_u8("b0"), b1 = nondet_u8("b1");
